@@ -116,3 +116,38 @@ theorem ws_in_strip_not_last (s : List Char) (c : Char) (hc : isStripWs c = true
   exact absurd this (by simp)
 
 end Cfi
+
+namespace Cfi
+open Cfi.Text
+
+theorem mem_dropLast_of_followed (x y : List Char) (c : Char) (hy : y ≠ []) : c ∈ (x ++ c :: y).dropLast := by
+  have : (x ++ c :: y).dropLast = x ++ c :: y.dropLast := by
+    rw [List.dropLast_append_of_ne_nil (by simp)]
+    cases y with
+    | nil => exact absurd rfl hy
+    | cons a t => rfl
+  rw [this]; simp
+
+/-- a line whose only newline is its last character: no trimmed span of it contains a newline -/
+theorem strip_slice_no_newline (l : List Char) (a b : Nat) (hl : ¬ '\n' ∈ l.dropLast) :
+    ¬ '\n' ∈ strip (slice l a b) := by
+  intro hm
+  obtain ⟨s1, s2, hs⟩ := List.append_of_mem hm
+  have hs2 := ws_in_strip_not_last (slice l a b) '\n' isStripWs_newline s1 s2 hs
+  obtain ⟨pre, post, hsp⟩ := stripBy_infix (p := isStripWs) (slice l a b)
+  have hl1 : l = l.take b ++ l.drop b := (List.take_append_drop b l).symm
+  have hl2 : l.take b = (l.take b).take a ++ slice l a b := by
+    simp only [slice]; exact (List.take_append_drop a (l.take b)).symm
+  apply hl
+  have hstrip : stripBy isStripWs (slice l a b) = s1 ++ '\n' :: s2 := hs
+  rw [hl1, hl2, hsp, hstrip]
+  have : (List.take a (List.take b l) ++ (pre ++ (s1 ++ '\n' :: s2) ++ post) ++ List.drop b l) =
+      (List.take a (List.take b l) ++ pre ++ s1) ++ '\n' :: (s2 ++ post ++ List.drop b l) := by
+    simp [List.append_assoc]
+  rw [this]
+  exact mem_dropLast_of_followed _ _ _ (by simp [hs2])
+
+theorem length_slice_le (l : List Char) (a b : Nat) : (slice l a b).length ≤ b - a := by
+  simp only [slice, List.length_drop, List.length_take]; omega
+
+end Cfi
